@@ -178,12 +178,19 @@ def build_mech(recipe):
      'config': [mech ops], 'reduced': bool, 'fix': {name: value}}
     """
     import chi
-    path = model_path(recipe['src'])
+    path = None if 'toy' in recipe['src'] else model_path(recipe['src'])
     cls = chi.PKPDModel if recipe.get('cls', 'pkpd') == 'pkpd' \
         else chi.SBMLModel
-    m = cls(path)
+    if 'toy' in recipe['src']:
+        m = toy_mech(recipe['src']['toy']['n_params'],
+                     recipe['src']['toy']['n_outputs'])
+    else:
+        m = cls(path)
     for op in recipe.get('config', []):
-        apply_mech_op(m, op)
+        if op['op'] == 'copy':
+            m = m.copy()
+        else:
+            apply_mech_op(m, op)
     if recipe.get('reduced'):
         m = chi.ReducedMechanisticModel(m)
         if recipe.get('fix'):
